@@ -734,6 +734,9 @@ def case_classes(c, res, aspect):
         # (log_norm@fixed-sdiv is the former finding fixed by 7b98f8b: no class any more, a recurrence is a VIOLATION)
         # (mixed@broadcast-axis / mixed@raises, mixedparam@raises, stats@raw-samples, t-limits of project: former findings
         #  fixed by b6020a2, 6cf8670, ffa313c -- a recurrence is a VIOLATION)
+    elif c["kind"] == "proj":
+        if aspect == "stats@newton-leaves-domain" and c["fam"] == "beta" and c.get("t") is None:
+            cl.append("beta-newton-leaves-domain")
     elif c["kind"] in ("dens", "lpdf"):
         d = res["desc"]
         if d.get("t") is not None:
@@ -1051,6 +1054,20 @@ def weighted_stats(fam, X, LW):
     return out, None
 
 
+def newton_leaves_domain(res, b, j):
+    pred = res.get("newton5")
+    if not pred or j >= len(pred) or pred[j] is None:
+        return False
+    pa, pb = unhex(pred[j][0]), unhex(pred[j][1])
+    if pa > 0 and pb > 0:
+        return False
+    try:
+        ga, gb = unhex(b["elems"][j][0]), unhex(b["elems"][j][1])
+    except (IndexError, KeyError, TypeError):
+        return False
+    return close(ga, pa, 1e-9 * max(1.0, abs(pa))) and close(gb, pb, 1e-9 * max(1.0, abs(pb)))
+
+
 def oracle_proj(c, res):
     out = []
     if "exc" in res:
@@ -1099,6 +1116,11 @@ def oracle_proj(c, res):
             out.append((asp, "transformed samples are outside the support of the base family"))
         else:
             k, j, g, t = verdict
+            # known finding beta-newton-leaves-domain: the five Newton steps inv_beta_suffstats documents leave the parameter
+            # domain for these moments (an independent re-run of that iteration predicts a non-positive parameter) and the
+            # library returned exactly that point -- any other wrong value stays a plain `stats` failure
+            if asp == "stats" and fam == "beta" and c.get("t") is None and newton_leaves_domain(res, b, j):
+                asp = "stats@newton-leaves-domain"
             out.append((asp, "sufficient statistic %d of element %d is %r, sample moment is %r" % (k, j, g, t)))
     # the Newton inverse used for gamma moment matching against an independent root finder
     exact = dict((k, (e, t)) for k, e, t in res.get("tabs", {}).get("ipl_exact", []))
